@@ -175,7 +175,7 @@ def run(s):
             D = numpy.array([Sc(z3.Real("D_%d" % j)) for j in range(npr)], dtype=object)
 
             def thunk():
-                me = duck_of(qa.QHACalculator, p_tv_gpa=P, desired_pressures_gpa=D, settings={"DELTA_P": 1.0})
+                me = duck_of(qa.QHACalculator, p_tv_gpa=P, desired_pressures_gpa=D, settings=_OpaqueSettings({"DELTA_P": 1.0}))
                 with patched(qa, int=lambda x: 0, logger=types.SimpleNamespace(info=lambda *a, **k: None, error=lambda *a, **k: None)):
                     try:
                         qa.QHACalculator.desired_pressure_status(me)
@@ -199,7 +199,7 @@ def run(s):
                     return r
         return core.proved("z3", "%d symbolic paths: ValueError iff min over T of P(T, smallest volume) < max requested pressure" % n,
                            sample="raise ValueError <=> exists t, j: P_gpa[t, -1] < desired_gpa[j]")
-    s.oblige("C06.overshooting_grid_rejected", rejection, [QA + "QHACalculator.desired_pressure_status"])
+    s.oblige("C06.overshooting_grid_rejected", rejection, [QA + "QHACalculator.desired_pressure_status"], fallback=lambda: native_rejection(qa))
 
     def load_order():
         log = []
@@ -246,20 +246,39 @@ def run(s):
     s.min_obligations = 6
 
 
+class _OpaqueSettings(dict):
+    """the symbolic run fixes only DELTA_P (used for the hint in the error message); a decision that reads another grid setting instead of the pressure fields
+    cannot be followed symbolically"""
+
+    def __missing__(self, k):
+        raise core.OutsideSubset("desired_pressure_status reads settings[%r]: the refusal is no longer decided from the pressure field and the requested pressures alone" % (k,))
+
+
 def native_rejection(qa):
-    for P, D, want in ((numpy.array([[0.0, 50.0], [5.0, 40.0]]), numpy.array([0.0, 45.0]), "raise"),
-                       (numpy.array([[0.0, 50.0], [5.0, 40.0]]), numpy.array([0.0, 39.0]), "return"),
-                       (numpy.array([[0.0, 40.0], [5.0, 50.0]]), numpy.array([0.0, 45.0]), "raise")):
-        me = duck_of(qa.QHACalculator, p_tv_gpa=P, desired_pressures_gpa=D, settings={"DELTA_P": 1.0})
-        try:
-            with patched(qa, logger=types.SimpleNamespace(info=lambda *a, **k: None, error=lambda *a, **k: None)):
-                qa.QHACalculator.desired_pressure_status(me)
-            got = "return"
-        except ValueError:
-            got = "raise"
-        if got != want:
-            return {"reproduced": True, "P_gpa": P.tolist(), "desired_gpa": D.tolist(), "observed": got, "expected": want}
-    return {"reproduced": False}
+    """the real desired_pressure_status on concrete fields: pressure grids P_MIN + DELTA_P * k (k < NTV) with P_MIN = 0 and P_MIN > 0 whose top lies below, just above
+    (by less than P_MIN) and far above the pressure reachable at every temperature; settings carry the same P_MIN / DELTA_P / NTV the grid was built from"""
+    n = 0
+    for pmin in (0.0, 15.0, 40.0):
+        for dp in (1.0, 2.5):
+            for reach in (37.3, 61.0):
+                Ptv = numpy.array([[pmin - 20.0, reach + 9.0], [pmin - 12.0, reach], [pmin - 15.0, reach + 4.0]])      # the coldest / hottest isotherm is not the limiting one
+                for ntv in range(2, 60):
+                    D = pmin + dp * numpy.arange(ntv)
+                    want = "raise" if Ptv[:, -1].min() < D.max() else "return"
+                    me = duck_of(qa.QHACalculator, p_tv_gpa=Ptv, desired_pressures_gpa=D, settings={"DELTA_P": dp, "P_MIN": pmin, "NTV": ntv})
+                    n += 1
+                    try:
+                        with patched(qa, logger=types.SimpleNamespace(info=lambda *a, **k: None, error=lambda *a, **k: None)):
+                            qa.QHACalculator.desired_pressure_status(me)
+                        got = "return"
+                    except ValueError:
+                        got = "raise"
+                    except Exception as e:
+                        got = "raises %r" % (e,)
+                    if got != want:
+                        return {"reproduced": True, "P_MIN": pmin, "DELTA_P": dp, "NTV": ntv, "reachable_at_every_T": float(Ptv[:, -1].min()), "top_of_grid": float(D.max()),
+                                "observed": got, "expected": want}
+    return {"reproduced": False, "evaluations": n, "note": "%d grids (P_MIN in {0, 15, 40}, DELTA_P in {1, 2.5}, NTV 2..59): ValueError iff the top of the grid exceeds min_T P(T, V_min)" % n}
 
 
 def qha_layer(qa):
